@@ -181,6 +181,41 @@ func (o *Node) setNotFound(path Path, n *Node, desc *proto.TypeDescriptor) error
 	return nil
 }
 
+// setMapValue turns the replacement of o, the value of a present key of the MAP node self, by n into the replacement
+// of the whole entry: the entry's length prefix counts the value as well
+func (self *Node) setMapValue(o *Node, n *Node) error {
+	vs := int(uintptr(o.v) - uintptr(self.v))
+	for pos := 0; pos < self.l; {
+		buf := rt.BytesFrom(rt.AddPtr(self.v, uintptr(pos)), self.l-pos, self.l-pos)
+		_, tagLen := protowire.ConsumeVarint(buf)
+		if tagLen < 0 {
+			break
+		}
+		pairLen, lenLen := protowire.ConsumeVarint(buf[tagLen:])
+		s := pos + tagLen + lenLen
+		if lenLen < 0 || int(pairLen) < 0 || int(pairLen) > self.l-s {
+			break
+		}
+		e := s + int(pairLen)
+		if s < vs && vs+o.l <= e {
+			src := n.raw()
+			pairbuf := make([]byte, 0, e-pos-o.l+len(src)+1)
+			pairbuf = append(pairbuf, buf[:tagLen]...)                                   // pair tag
+			pairbuf = protowire.AppendVarint(pairbuf, uint64(int(pairLen)-o.l+len(src))) // + pairlen
+			pairbuf = append(pairbuf, buf[tagLen+lenLen:vs-pos]...)                      // + key + value tag
+			pairbuf = append(pairbuf, src...)                                            // + value
+			pairbuf = append(pairbuf, buf[vs-pos+o.l:e-pos]...)
+			n.l = len(pairbuf)
+			n.v = rt.GetBytePtr(pairbuf)
+			o.l = e - pos
+			o.v = rt.AddPtr(self.v, uintptr(pos))
+			return nil
+		}
+		pos = e
+	}
+	return wrapError(meta.ErrRead, "the value's pair is not found in the map", nil)
+}
+
 func (self *Node) replaceMany(ps *pnSlice) error {
 	var buf []byte
 	// Sort pathes by original value address
